@@ -134,10 +134,43 @@ def r51(ctx):
         ctx.bad(rid, sc, "setup_config does not initialise current.traj_num")
 
 
+def r53(ctx):
+    """The re-sort must not move a busy path: the busy-path tests of sort_trajstate compare
+    path numbers in one representation (shared with C03 R-3.8)."""
+    from . import c03
+
+    class Proxy:
+        def __init__(self, c):
+            self._c = c
+            self.tree = c.tree
+
+        def ok(self, rid, node, what, nontrivial=True):
+            self._c.ok("R-5.3", node, what, nontrivial)
+
+        def bad(self, rid, node, message, **kw):
+            self._c.bad("R-5.3", node, message, **kw)
+
+        def note(self, m):
+            self._c.note(m)
+
+    cls = ctx.tree.cls(REPEX, "REPEX_state")
+    methods = {s.name: s for s in cls.body if isinstance(s, FUNC)}
+    c03.r38(Proxy(ctx), methods)
+    # sort_trajstate filters its candidates by the busy paths
+    f = methods["sort_trajstate"]
+    txt = ast.unparse(f)
+    if "locked_paths()" in txt and "not in locks" in txt.replace("not in locked", "not in locks"):
+        ctx.ok("R-5.3", f, "sort_trajstate excludes busy paths (path_number not in locked_paths()) from the swap candidates")
+    else:
+        ctx.bad("R-5.3", f, "sort_trajstate does not exclude busy paths from its swap candidates: a path held by an in-flight job can be moved to an idle slot")
+
+
 def run(ctx):
     ctx.rule("R-5.2", "the restart file written after a step is written after the re-sorting (commit is final)", floor=1)
+    ctx.rule("R-5.3", "the re-sort only moves idle paths: busy-path membership tests compare like with like (shared with C03 R-3.8)", floor=4)
     ctx.rule("R-5.1", "path-number counter discipline (never reused, also across restarts)", floor=5)
     ctx.attempt(r51, ctx)
+    ctx.attempt(r53, ctx)
     from .shared import commit_is_final
     ctx.attempt(commit_is_final, ctx, "R-5.2")
 
@@ -151,6 +184,8 @@ VARIANTS = [
     B("c05-initial-counter-too-small", SETUP, '            "traj_num": size,\n', '            "traj_num": size - 1,\n', "R-5.1"),
     B("c05-renumber-in-add-traj", REPEX, "        self._trajs[ens] = traj\n        self.state[ens, :] = valid", "        traj.path_number = ens\n        self._trajs[ens] = traj\n        self.state[ens, :] = valid", "R-5.1"),
     B("c05-commit-before-sort", REPEX, "        self.sort_trajstate()\n        self.config[\"current\"][\"traj_num\"] = traj_num\n", "        self.config[\"current\"][\"traj_num\"] = traj_num\n        self.write_toml()\n        self.sort_trajstate()\n", "R-5.2", control=True, why="seeded C06_a"),
+    B("c05-locked-paths-from-record", REPEX, "        locks = [\n            t0.path_number\n            for t0, l0 in zip(self._trajs[:-1], self._locks[:-1])\n            if l0\n        ]\n        return locks", "        return [pnum for _, pnums in self.locked for pnum in pnums]", "R-5.3", control=True, why="seeded C05_a (same change as C03_a)"),
+    B("c05-sort-ignores-busy", REPEX, "                j if self._trajs[i].path_number not in locks else 0\n", "                j\n", "R-5.3"),
     K("c05-keep-plain-increment", REPEX, "                traj_num += 1\n", "                traj_num += 1  # next free number\n"),
     K("c05-keep-counter-renamed", REPEX, '        traj_num = self.config["current"]["traj_num"]', '        next_number = self.config["current"]["traj_num"]',
       also=[(REPEX, "                out_traj.path_number = traj_num\n", "                out_traj.path_number = next_number\n"),
